@@ -43,7 +43,7 @@ ASSUMPTIONS = [
     'BlockSliceQuery.find_proposal_injection is excluded: it calls a non-existent OperationListListQuery.find_votes after the search returns '
     '(a defect outside this statement).',
 ]
-EXPECTED_PROBES = ['tallies_reset_at_stop_block', 'voting_power_sent_as_string', 'two_searches_interleaved', 'coarse_equality', 'chain_extended_between_two_searches', 'none_valued_history', 'search_aborted_by_definitive_failure', 'slice_reused_for_second_search', 'change_at_last_plus_1', 'change_at_head', 'adjacent_changes', 'step_exceeds_range', 'no_change_in_range', 'fault_during_search',
+EXPECTED_PROBES = ['more_than_512_sampling_points', 'tallies_reset_at_stop_block', 'voting_power_sent_as_string', 'two_searches_interleaved', 'coarse_equality', 'chain_extended_between_two_searches', 'none_valued_history', 'search_aborted_by_definitive_failure', 'slice_reused_for_second_search', 'change_at_last_plus_1', 'change_at_head', 'adjacent_changes', 'step_exceeds_range', 'no_change_in_range', 'fault_during_search',
                    'chain_grew_during_search']
 
 PKH = 'tz1VSUr8wwNhLAzempoch5d6hLRiTh8Cjcjb'
@@ -65,8 +65,16 @@ def gen(seed, tier):
     H = max(H, head + 1)
     if kind == 'api:origination':
         last = 0
+    long_range = kind.startswith('changes:') and kind != 'changes:kt' and rng.random() < (0.05 if tier == 'thorough' else 0.015)
+    if long_range:
+        # many hundreds of levels sampled densely: more sampling points than any fixed-size buffer a search might use
+        H = rng.randint(600, 1400)
+        head = rng.randint(H - 40, H - 1)
+        last = rng.randint(1, 60)
     span = head - last
     step = rng.choice([1, 2, 3, max(1, span // 3), max(1, span // 2), max(1, span - 1), span, span + 1, 2 * span, 60, rng.randint(1, max(1, 2 * span))])
+    if long_range:
+        step = rng.choice([1, 1, 2])
     nchg = rng.choice([0, 1, 1, 2, 3, 4, 6])
     if kind in ('single:counter', 'api:origination'):
         nchg = max(nchg, 1)
@@ -436,6 +444,8 @@ def execute(scn, want_log=False):
         bump('tallies_reset_at_stop_block')
     if scn.get('power_as_string') and scn['changes']:
         bump('voting_power_sent_as_string')
+    if (head - last) / max(step, 1) > 512:
+        bump('more_than_512_sampling_points')
     if sim.stats.get('fault:transient', 0) + sim.stats.get('fault:preval', 0) + sim.stats.get('fault:latency', 0):
         bump('fault_during_search')
     if node.head['level'] > level0:
